@@ -1329,10 +1329,19 @@ impl BatchBlobStore for DictZipBlobStore {
     where
         I: IntoIterator<Item = Vec<u8>>,
     {
+        // all-or-nothing: a record refused in the middle of the batch must not leave the
+        // records before it stored under ids the caller never receives
         let mut ids = Vec::new();
         for blob in blobs {
-            let id = self.put(&blob)?;
-            ids.push(id);
+            match self.put(&blob) {
+                Ok(id) => ids.push(id),
+                Err(e) => {
+                    for id in ids {
+                        let _ = self.remove(id);
+                    }
+                    return Err(e);
+                }
+            }
         }
         Ok(ids)
     }
